@@ -46,7 +46,7 @@ def _plan(tier: str, seed: int):
     if tier == "quick":
         return [{"name": f"s{i}", "engine": "jit", "args": {"n": 400},
                  "timeout": 900} for i in range(4)]
-    return [{"name": f"s{i}", "engine": "jit", "args": {"n": 2500},
+    return [{"name": f"s{i}", "engine": "jit", "args": {"n": 8000},
              "timeout": 3000} for i in range(16)]
 
 
